@@ -7,6 +7,7 @@
 
 use opaque_ke::rand::{CryptoRng, Error, RngCore};
 
+#[derive(Clone, Debug, Default)]
 pub struct TapeRng;
 impl RngCore for TapeRng {
     fn next_u32(&mut self) -> u32 {
